@@ -56,6 +56,12 @@ func (r *lockRig) init(st ref.State, memSeed, ioSeed uint64, fill, ioFill int) {
 		r.cpu.RETNHandler, r.cpu.RETIHandler, r.cpu.Interrupt, r.cpu.BreakPoints = nil, nil, nil, nil
 	}
 	r.cpu.Memory, r.cpu.IO = r.ib, r.ib
+	switch memSeed >> 13 & 3 { // Step does not look at break points: nil, empty or populated must make no difference
+	case 1:
+		r.cpu.BreakPoints = map[uint16]struct{}{}
+	case 2:
+		r.cpu.BreakPoints = map[uint16]struct{}{st.PC: {}, st.PC + 1: {}, st.PC + 2: {}, 0x0038: {}, 0x0066: {}}
+	}
 	r.useDumb = memSeed>>8&31 == 5
 	if r.useDumb {
 		if r.dumb == nil {
